@@ -314,6 +314,9 @@ func PlansFor(info vrt.ScenarioInfo, thorough bool) []Plan {
 	if info.Threads >= 3 {
 		b.Shards = 8
 	}
+	if info.NoShard {
+		b.Shards = 1
+	}
 	var out []Plan
 	if !info.NoThoroughBounded || info.NoThoroughComplete {
 		out = append(out, b)
@@ -323,7 +326,7 @@ func PlansFor(info vrt.ScenarioInfo, thorough bool) []Plan {
 		if info.Threads >= 3 {
 			c.Shards = 8
 		}
-		if info.NoThoroughBounded {
+		if info.NoThoroughBounded || info.NoShard {
 			c.Shards = 1 // small scenarios: sharding would only repeat the first levels
 		}
 		out = append(out, c)
